@@ -127,7 +127,22 @@ def iterators(ctx, rule):
                 break
         if diff is None:
             diff = "different number of statements"
-    ctx.ob(rule, "twins-agree-statement-for-statement", same, "the str and bytes iterators of urls_from_html drifted apart: %s" % diff, um.site(fb), sample="%d statements compared after normalisation" % len(a))
+    def twin_cells():
+        # urls_from_html interpreted on a str document and on its UTF-8 bytes, one document per href spelling class
+        from ..microeval import run_function, as_list, Raised
+        ref_ = um.func("urls_from_html")
+        out = []
+        for doc in ('<a href="/a?x=1&amp;y=2">t</a><A HREF=\'/b\'>u</A><a href=/c>v</a>', '<script>document.write("<a href=/no>")</script><a href=" /caf\u00e9 ">t</a>', '<a href=""></a><a name=x>n</a><a href=\'"/q"\'>q</a>',
+                    '<a class=k href="/late" id=i>t</a><a href=/d&gt;>u</a>', "<a href='\u3000/w\u00a0'>w</a>"):
+            res = []
+            for d in (doc, doc.encode("utf8")):
+                try:
+                    res.append(as_list(repo, run_function(repo, ref_, [d])))
+                except Raised as e:
+                    res.append("raises " + e.name)
+            out.append(("urls_from_html(%r): str -> %r, bytes -> %r" % (doc, res[0], res[1]), res[0] == res[1] and isinstance(res[0], list)))
+        return out
+    ctx.ob(rule, "twins-agree-statement-for-statement", same, "the str and bytes iterators of urls_from_html drifted apart: %s" % diff, um.site(fb), sample="%d statements compared after normalisation" % len(a), cells=twin_cells)
     # strip() without argument on raw bytes
     for node in ast.walk(fb):
         if isinstance(node, ast.Call) and isinstance(node.func, ast.Attribute) and node.func.attr in ("strip", "lstrip", "rstrip", "lower", "upper", "split") and not node.args:
@@ -155,15 +170,27 @@ def unescape(ctx, rule):
     ex = P.Extractor(repo, atomic=set())
     ys = [r for r in ex.function(ref) if r.kind == "yield"]
     ctx.require_instances(rule, len(ys), 1, "yields of urls_from_html")
+    def doc_cells():
+        # the extractor interpreted on one document per class (consulted when the yield is spelled another way: yield from, map ...)
+        from ..microeval import run_function, as_list, Raised
+        out = []
+        for doc, want in (('<a href=" /a?x=1&amp;y=2 ">t</a>', ["/a?x=1&y=2"]), ("<a href='\n/b&#39;c\t'>t</a><a href=/d&gt;>u</a>", ["/b'c", "/d>"]), ('<a href="&amp;amp;">t</a>', ["&amp;"]), ('<a href=" ">t</a><a>no</a>', [""]),
+                          ('<a href="/a?x=1&amp;y=2">t</a>'.encode("utf8"), ["/a?x=1&y=2"]), ('<a href=" /caf\u00e9&eacute; ">t</a>'.encode("utf8"), ["/caf\u00e9\u00e9"])):
+            try:
+                got = as_list(repo, run_function(repo, ref, [doc]))
+            except Raised as e:
+                got = "raises " + e.name
+            out.append(("urls_from_html(%r) -> %r" % (doc, got), got == want))
+        return out
     for r in ys:
         t = r.term
         un = lambda x: x[0] == "call" and x[1] in ("html.unescape",)
         st = lambda x: x[0] == "method" and x[1] == "strip" and not x[3]
         ok = un(t)
-        ctx.ob(rule, "unescaped", ok, "urls_from_html yields %s: not HTML-unescaped" % P.show(t, maxdepth=3), um.site(r.node), witness='<a href="/a?x=1&amp;y=2">')
+        ctx.ob(rule, "unescaped", ok, "urls_from_html yields %s: not HTML-unescaped" % P.show(t, maxdepth=3), um.site(r.node), witness='<a href="/a?x=1&amp;y=2">', cells=doc_cells)
         if ok:
             inner = t[2][0]
-            ctx.ob(rule, "stripped-before-unescape", st(inner), "urls_from_html does not strip the raw href before unescaping (%s)" % P.show(inner, maxdepth=3), um.site(r.node), witness='<a href=" x ">')
+            ctx.ob(rule, "stripped-before-unescape", st(inner), "urls_from_html does not strip the raw href before unescaping (%s)" % P.show(inner, maxdepth=3), um.site(r.node), witness='<a href=" x ">', cells=doc_cells)
 
 
 def chain(ctx, rule):
